@@ -33,7 +33,13 @@ func init() {
 // operations: D declare, V var (zero), A add-assign, P print, C close, and block openers
 var c08Ops = []string{"D", "V", "A", "P", "C", "oIf", "oIfInit", "oElse", "oFor", "oRange", "oCase", "oDefault"}
 
-func c08Sequences(maxLen int) [][]string {
+// a second alphabet: the openers whose HEADER declares the name (for name := ..., for name := range,
+// for _, name := range, if name := ...); enumerated one step shorter
+var c08OpsHeader = []string{"D", "V", "A", "P", "C", "oIfInit", "oForInit", "oRangeKey", "oRangeVal"}
+
+func c08Sequences(maxLen int) [][]string { return c08SequencesOver(c08Ops, maxLen) }
+
+func c08SequencesOver(ops []string, maxLen int) [][]string {
 	var out [][]string
 	var rec func(prefix []string, depth int, declsInBlock []int, hasInnerDecl bool)
 	rec = func(prefix []string, depth int, declared []int, hasInnerDecl bool) {
@@ -44,7 +50,7 @@ func c08Sequences(maxLen int) [][]string {
 			return
 		}
 		remaining := maxLen - len(prefix)
-		for _, op := range c08Ops {
+		for _, op := range ops {
 			switch op {
 			case "D", "V":
 				// a name can be declared once per scope (Go rejects redeclaration in the same block)
@@ -63,7 +69,7 @@ func c08Sequences(maxLen int) [][]string {
 				if depth == 0 {
 					continue
 				}
-				if strings.HasPrefix(prefix[len(prefix)-1], "o") && prefix[len(prefix)-1] != "oIfInit" {
+				if last := prefix[len(prefix)-1]; strings.HasPrefix(last, "o") && last != "oIfInit" && last != "oForInit" && last != "oRangeKey" && last != "oRangeVal" {
 					continue // an empty block tells nothing
 				}
 				rec(append(prefix, op), depth-1, declared[:len(declared)-1], hasInnerDecl)
@@ -73,7 +79,7 @@ func c08Sequences(maxLen int) [][]string {
 				}
 				d2 := append(append([]int{}, declared...), 0)
 				inner := hasInnerDecl
-				if op == "oIfInit" {
+				if op == "oIfInit" || op == "oForInit" || op == "oRangeKey" || op == "oRangeVal" {
 					inner = true
 				}
 				rec(append(prefix, op), depth+1, d2, inner)
@@ -98,9 +104,37 @@ func c08Build(seq []string, name string, id string) *Prog {
 	stack := []*frame{{}}
 	top := func() *frame { return stack[len(stack)-1] }
 	x := func() *E { return v(name, TInt) }
+	declName := name
+	if name == "fmtS" {
+		// the name fmt holds a struct reference: reads and (compound) assignments go to its field
+		declName = "fmt"
+		x = func() *E { return &E{K: "field", Ty: TInt, X: v("fmt", PtrTo("T")), F: "N"} }
+	}
+	hdrPrint := func(tag string) *S { return &S{K: "print", Ln: true, Exprs: []*E{{K: "str", Ty: TString, S: tag}, x()}} }
 	for _, op := range seq {
 		switch op {
+		case "oForInit":
+			stack = append(stack, &frame{wrap: func(b []*S) *S {
+				return &S{K: "for", Init: &S{K: "decl", Names: []string{name}, Exprs: []*E{lit(TInt, 0)}}, Cond: cmp("<", v(name, TInt), lit(TInt, 2)), Post: &S{K: "incdec", Lhs: []*E{v(name, TInt)}, D: 1}, Body: append([]*S{hdrPrint("f")}, b...)}
+			}})
+			continue
+		case "oRangeKey":
+			stack = append(stack, &frame{wrap: func(b []*S) *S {
+				return &S{K: "range", X: &E{K: "slicelit", Ty: SliceOf(TInt), Args: []*E{lit(TInt, 40), lit(TInt, 50)}}, KName: name, VName: "_", Body: append([]*S{hdrPrint("rk")}, b...)}
+			}})
+			continue
+		case "oRangeVal":
+			stack = append(stack, &frame{wrap: func(b []*S) *S {
+				return &S{K: "range", X: &E{K: "slicelit", Ty: SliceOf(TInt), Args: []*E{lit(TInt, 60), lit(TInt, 70)}}, KName: "_", VName: name, Body: append([]*S{hdrPrint("rv")}, b...)}
+			}})
+			continue
+		}
+		switch op {
 		case "D":
+			if name == "fmtS" {
+				top().stmts = append(top().stmts, &S{K: "decl", Names: []string{"fmt"}, Exprs: []*E{newS("T", "N", next())}})
+				break
+			}
 			top().stmts = append(top().stmts, &S{K: "decl", Names: []string{name}, Exprs: []*E{next()}})
 		case "V":
 			top().stmts = append(top().stmts, &S{K: "declzero", Names: []string{name}, DeclTy: TInt})
@@ -119,7 +153,10 @@ func c08Build(seq []string, name string, id string) *Prog {
 		case "oIf":
 			stack = append(stack, &frame{wrap: func(b []*S) *S { return &S{K: "if", Cond: &E{K: "bool", Ty: TBool, B: true}, Then: b} }})
 		case "oIfInit":
-			init := &S{K: "decl", Names: []string{name}, Exprs: []*E{next()}}
+			init := &S{K: "decl", Names: []string{declName}, Exprs: []*E{next()}}
+			if name == "fmtS" {
+				init = &S{K: "decl", Names: []string{"fmt"}, Exprs: []*E{newS("T", "N", next())}}
+			}
 			stack = append(stack, &frame{wrap: func(b []*S) *S {
 				return &S{K: "if", Init: init, Cond: cmp(">", x(), lit(TInt, 0)), Then: append([]*S{{K: "print", Ln: true, Exprs: []*E{{K: "str", Ty: TString, S: "i"}, x()}}}, b...)}
 			}})
@@ -160,19 +197,36 @@ func c08Build(seq []string, name string, id string) *Prog {
 		p.Funcs = append(p.Funcs, &Func{Name: "F", Params: []string{"p"}, PTypes: []*Ty{TInt}, Body: body})
 		p.Globals = []*S{{K: "decl", Names: []string{"p"}, DeclTy: TInt, VarForm: true, Exprs: []*E{lit(TInt, 1000)}}}
 		p.Funcs = append(p.Funcs, &Func{Name: "Main", Body: []*S{{K: "expr", E: &E{K: "call", Fn: "F", Args: []*E{lit(TInt, 2000)}}, NRes: 0}, {K: "print", Ln: true, Exprs: []*E{{K: "str", Ty: TString, S: "global"}, v("p", TInt)}}}})
-	case "fmt":
+	case "fmt", "fmtS":
 		// the local named fmt shadows the imported package inside Main; another function still uses the package
 		pre := []*S{{K: "decl", Names: []string{"fmt"}, Exprs: []*E{lit(TInt, 3000)}}}
+		if name == "fmtS" {
+			p.Structs = []*StructDef{{Name: "T", Fields: []string{"N"}, FTypes: []*Ty{TInt}}}
+			pre = []*S{{K: "decl", Names: []string{"fmt"}, Exprs: []*E{newS("T", "N", lit(TInt, 3000))}}}
+		}
 		p.Funcs = append(p.Funcs, &Func{Name: "Main", Body: append(append(pre, body...), &S{K: "expr", E: &E{K: "call", Fn: "viaPkg"}, NRes: 0})})
 		p.Funcs = append(p.Funcs, &Func{Name: "viaPkg", Body: []*S{{K: "print", Ln: true, Fmt: true, Exprs: []*E{{K: "str", Ty: TString, S: "pkg"}}}}})
 	}
 	return p
 }
 
-func c08Programs(maxLen int, name string) []*Prog {
+func c08Programs(maxLen int, name string) []*Prog { return c08ProgramsOver(c08Ops, "", maxLen, name) }
+
+func c08ProgramsOver(ops []string, tag string, maxLen int, name string) []*Prog {
 	var progs []*Prog
-	for i, seq := range c08Sequences(maxLen) {
-		if name == "fmt" || name == "p" {
+	for i, seq := range c08SequencesOver(ops, maxLen) {
+		if name == "fmtS" {
+			hasV := false
+			for _, op := range seq {
+				if op == "V" || op == "oForInit" || op == "oRangeKey" || op == "oRangeVal" {
+					hasV = true // a nil reference / an int loop variable has no field
+				}
+			}
+			if hasV {
+				continue
+			}
+		}
+		if name == "fmt" || name == "p" || name == "fmtS" {
 			// the function scope already declares the name (fmt := 3000 / the parameter p)
 			depth, clash := 0, false
 			for _, op := range seq {
@@ -189,7 +243,7 @@ func c08Programs(maxLen int, name string) []*Prog {
 				continue
 			}
 		}
-		progs = append(progs, c08Build(seq, name, fmt.Sprintf("c08/%s/%d/%s", name, i, strings.Join(seq, "."))))
+		progs = append(progs, c08Build(seq, name, fmt.Sprintf("c08/%s%s/%d/%s", name, tag, i, strings.Join(seq, "."))))
 	}
 	return progs
 }
@@ -226,12 +280,16 @@ func c08Nested(d int, kinds []string) [][]string {
 }
 
 func checkC08(c *Ctx) {
-	c.Rule = "programs = every well-formed sequence of <= L scoping operations (declare, var, assign, print, open/close of 7 block kinds, nesting <= 3, ending in a print after the last block closed and containing a declaration inside a block) on one name that is a package-level variable (L), a parameter (L-1) or the imported package name fmt (L-1); plus seeded random programs with shadowing; distinct_nontrivial = distinct programs"
+	c.Rule = "programs = every well-formed sequence of <= L scoping operations (declare, var, assign, print, open/close of 7 block kinds, nesting <= 3; a second alphabet with the openers whose header declares the name itself: for name := ..., for name := range, for _, name := range, if name := ...; ending in a print after the last block closed and containing a declaration inside a block) on one name that is a package-level variable (L), a parameter (L-1) or the imported package name fmt (L-1; also holding a struct reference whose field is read and compound-assigned, L-2); plus seeded random programs with shadowing; distinct_nontrivial = distinct programs"
 	c.Assumptions = []string{"MiniGo.tla is calibrated against the Go toolchain on a deterministic sample of the programs", "loop bodies run twice so that per-iteration freshness is visible"}
 	L := c.pick(6, 7)
 	progs := c08Programs(L, "x")
 	progs = append(progs, c08Programs(L-1, "p")...)
 	progs = append(progs, c08Programs(L-1, "fmt")...)
+	progs = append(progs, c08Programs(L-2, "fmtS")...)
+	// headers that declare the name itself (for name := ...; for name := range; for _, name := range)
+	progs = append(progs, c08ProgramsOver(c08OpsHeader, "/hdr", L-1, "x")...)
+	progs = append(progs, c08ProgramsOver(c08OpsHeader, "/hdr", L-2, "p")...)
 	for i, seq := range c08Nested(3, []string{"oIf", "oFor", "oCase", "oIfInit", "oElse"}) {
 		progs = append(progs, c08Build(seq, "x", fmt.Sprintf("c08/nested3/%d/%s", i, strings.Join(seq, "."))))
 	}
